@@ -45,11 +45,12 @@ def project(meta=None, rev=32, small=False, **kw):
         Symbol("SysHidden", 58, 0xC4, system=True), Symbol("Program:Second", 59, 0x68), Symbol("P2T", 60, 0xC3, (3,), program="Second"),
         Symbol("Routine:Main", 61, 0x6D, program="Second"), Symbol("__hidden_in_prog", 62, 0xC4, program="Main"),
         Symbol("A", 63, 0xC2), Symbol("Odd", 64, 0xC6, (2, 2)),
+        Symbol("Drive:I1", 65, 0xC4), Symbol("Local:3:I2", 66, io), Symbol("Remote:S", 67, 0xC3),
     ]
     if small == "tiny":
         extra = [e for e in extra if e.name in ("ALIAS1", "__DEFVAL_0001")]
     elif small:
-        extra = [e for e in extra if e.name in ("Task:MainTask", "Map:Local", "__DEFVAL_0001", "Local:1:I", "ALIAS1", "SysHidden", "A")]
+        extra = [e for e in extra if e.name in ("Task:MainTask", "Map:Local", "__DEFVAL_0001", "Local:1:I", "ALIAS1", "SysHidden", "A", "Drive:I1", "Local:3:I2")]
     t.symbols += extra
     if "iid" in meta:
         t.find_symbol("D1").instance_id = meta["iid"]
